@@ -62,6 +62,7 @@ var c06Sites = []struct {
 	{"iterate", "iterate", false, "for k, v in o%d { log(k, v) }"},
 	{"next", "next", false, "for k, v in o%d { log(k, v) }"},
 	{"value", "value", false, "for k, v in o%d { log(k, v) }"},
+	{"key", "key", false, "for k, v in o%d { log(k, v) }"},
 	{"syncmap-string", "string", true, "string(sm%d)"},
 	{"syncmap-equal", "equal", true, "(sm%[1]d == sm%[1]db)"},
 	{"vm-rem-zero", "-", true, "(7 %% (op(%d) * 0))"}, // a Go panic raised by a VM operator (integer remainder by zero)
@@ -191,7 +192,7 @@ func c06Run(rc *sim.RunCtx) {
 					errorCapableOnly = false
 				}
 				occ := 0
-				if site.method == "next" || site.method == "value" {
+				if site.method == "next" || site.method == "value" || site.method == "key" {
 					occ = t.Draw(2)
 				}
 				spec.ObjFaults = append(spec.ObjFaults, sim.ObjFault{Obj: k, Method: site.method, Occ: occ, Kind: p.fault})
@@ -429,7 +430,7 @@ func init() {
 	sim.Register(&sim.Engine{
 		ID:    "C06",
 		Level: "exploration",
-		Rule: "each run is a script of 1–5 probes `try { log(bK); <context>(<site>); log(aK) } catch e { log(cK, isError(e)) } finally { log(fK) }`; site ∈ {host function, host object BinaryOp/IndexGet/IndexSet/Call/CallName/String/Equal/IsFalsy/Iterate/Next/Value, VM remainder by zero}; " +
+		Rule: "each run is a script of 1–5 probes `try { log(bK); <context>(<site>); log(aK) } catch e { log(cK, isError(e)) } finally { log(fK) }`; site ∈ {host function, host object BinaryOp/IndexGet/IndexSet/Call/CallName/String/Equal/IsFalsy/Iterate/Next/Key/Value, VM remainder by zero}; " +
 			"context ∈ {plain, callee at depth 1–300, child VM, child of child, finally with pending return, catch, frame array at 1000–1029, value stack at 1990–2039 (wide literal), 240-argument calls nested 1–8, strings.Map callback, unbounded recursion whose frames catch the frame overflow, a try statement inside the function that runs on the child VM, value-stack exhaustion by recursion under an active handler}; ≤2 sites per run panic (string, error, runtime.Error, struct, typed-nil error pointer payload) or return an error. " +
 			"Oracles: recover() around Run sees nothing; a run that returns a value entered each struck probe's catch and finally exactly once and skipped the statement after the site, and equals the twin run in which the host returns the same text as an error; after Clear the same VM runs the fault-free script and a fixed script like a new VM. " +
 			"Non-trivial = a fault fired (or a VM-internal panic site exists); distinct = distinct (context/site vector, fault table).",
